@@ -1,4 +1,5 @@
 """Region rules (C05, C06, C07, C15-R4) — evaluated on both instantiations (region16 / region32)."""
+import re
 from collections import defaultdict
 from ..build import AnalysisBroken
 from . import common
@@ -1817,10 +1818,10 @@ def r7_13_or_trick_exactness(ck, P, rid='C07-R13'):
         ck.incomplete(R, 'no or-ed difference test found')
 
 
-def r5_11_constructed_rectangle_validated(ck, P):
+def r5_11_constructed_rectangle_validated(ck, P, rid='C05-R11'):
     """sibling agreement: every exported function that makes a one-rectangle region out of caller-supplied numbers (x, y, width, height,
     or a box pointer) checks that the rectangle has points before it uses it as a region."""
-    R = ck.rule('C05-R11', 'every exported region function that builds a single-rectangle region from its arguments (x, y, width, height or a caller\'s box copied into an extents field together with data = NULL) compares x1 with x2 and y1 with y2 of that rectangle first: a rectangle without points is the empty region, not a region with one rectangle', floor=8)
+    R = ck.rule(rid, 'every exported region function that builds a single-rectangle region from its arguments (x, y, width, height or a caller\'s box copied into an extents field together with data = NULL) compares x1 with x2 and y1 with y2 of that rectangle first: a rectangle without points is the empty region, not a region with one rectangle', floor=8)
     for u in units(P):
         for fn, f in sorted(u.functions.items()):
             if not f.exported:
@@ -1872,3 +1873,151 @@ def r5_11_constructed_rectangle_validated(ck, P):
                 ck.ok(R, where, 'x1/x2 and y1/y2 compared')
             else:
                 ck.violation(R, fn, 'rectangle from arguments (%s)' % _w(u), '%s builds a one-rectangle region from its arguments without comparing %s: with a zero width or height (or an empty box) it produces a region that has no points but is reported non-empty, has one rectangle and is not equal to the empty region; the sibling constructors (init_rect, union_rect, init_with_extents) test the rectangle first' % (fn, ' and '.join(sorted({'x': 'x1 with x2', 'y': 'y1 with y2'}[k] for k in {'x', 'y'} - cmpd))), ext[0][0].loc())
+
+
+def r7_14_running_extremes_independent(ck, P, rid='C07-R14'):
+    """T-GRD: a running minimum / maximum kept in a region's extents (if (v < ext.F) ext.F = v) is updated whatever happened to the other
+    extents fields: the update of F is not on the else side (or under the then side) of a test of another field G of the same extents."""
+    R = ck.rule(rid, 'every update of an extents field F that is guarded by a comparison with the current value of the same field (running minimum / maximum) is guarded by no comparison that reads a different field of the same extents: "if (x1 < ext.x1) ... else if (x2 > ext.x2) ..." leaves ext.x2 stale whenever the same rectangle also lowers ext.x1', floor=20)
+    n = 0
+    for u in units(P):
+        for f in u.functions.values():
+            for x in f.insts():
+                if x.op != 'store':
+                    continue
+                p = f.path(x.a[1]); fl = f.fields_of(p)
+                if len(fl) < 2 or not fl[-2].endswith('.extents') or not fl[-1].startswith('pixman_box'):
+                    continue
+                root = f.root(p); F = fl[-1].split('.')[1]
+                own = False; other = None
+                for t, s_ in f.guard_edges(x.bb.id):
+                    if t.op != 'br' or not t.a:
+                        continue
+                    c, pred, ops = f.cond(t.a[0])
+                    if c is None or c.op != 'icmp' or pred not in ('slt', 'sgt', 'sle', 'sge'):
+                        continue
+                    for o in ops:
+                        y = f.v(f.strip_casts(o))
+                        if y is None or y.op != 'load':
+                            continue
+                        q = f.path(y.a[0]); qf = f.fields_of(q)
+                        if len(qf) >= 2 and qf[-2].endswith('.extents') and qf[-1].startswith('pixman_box') and f.root(q) == root:
+                            G = qf[-1].split('.')[1]
+                            if G == F:
+                                own = True
+                            else:
+                                other = (G, c)
+                if not own:
+                    continue
+                n += 1; ck.saw(f)
+                where = '%s (%s): extents.%s at %s' % (f.name, _w(u), F, x.loc())
+                if other:
+                    ck.violation(R, f.name, 'running extreme extents.%s (%s)' % (F, _w(u)), '%s updates extents.%s (a running minimum / maximum: the store is guarded by a comparison with extents.%s) only on paths decided by a comparison with extents.%s at %s: a rectangle that moves both fields updates one of them only, so the extents no longer enclose the rectangles' % (f.name, F, F, other[0], other[1].loc()), x.loc())
+                else:
+                    ck.ok(R, where)
+    if n == 0:
+        raise AnalysisBroken('%s: no running minimum / maximum over an extents field found' % rid)
+
+
+def r5_12_degenerate_rectangle_follows_the_operator(ck, P, rid='C05-R12'):
+    """T-PATH (partial evaluation): an exported function that builds a rectangle from its arguments and combines it with a source region
+    treats a rectangle without points as the empty set of *its* operator: source ∩ {} = {}, source ∪ {} = source.  Evaluated by following
+    only the branches consistent with 'x1 >= x2' (then with 'y1 >= y2')."""
+    R = ck.rule(rid, 'in every exported region function that compares x1 with x2 / y1 with y2 of a rectangle built from its arguments and hands that rectangle to the intersection or the union of the library, the paths on which the rectangle has no points end as the operator requires: an intersecting function never copies the source region into the result there (source ∩ {} is empty), a uniting function never reaches the union with the malformed rectangle (source ∪ {} is the source)', floor=8)
+    n = 0
+    for u in units(P):
+        for fn, f in sorted(u.functions.items()):
+            if not f.exported:
+                continue
+            ops = [c for c in f.calls() if c.callee and c.callee.endswith(('_intersect', '_union')) and any(a[0] == 'v' and f.root(f.path(a))[0] == 'alloca' for a in c.a)]
+            if not ops:
+                continue
+            kind = 'intersect' if ops[0].callee.endswith('_intersect') else 'union'
+            def fld(o):
+                y = f.v(o)
+                while y is not None and y.op in ('sext', 'zext', 'trunc'):
+                    y = f.v(y.a[0])
+                if y is not None and y.op == 'load':
+                    st = [str(s) for s in f.path(y.a[0])[1]]
+                    if st and f.root(f.path(y.a[0]))[0] == 'alloca':
+                        return st[-1].split('.')[-1]
+                return None
+            tests = {}
+            for x in f.insts():
+                if x.op != 'icmp':
+                    continue
+                a, b = fld(x.a[0]), fld(x.a[1])
+                if not a or not b or a[0] != b[0] or {a[1], b[1]} != {'1', '2'}:
+                    continue
+                p = x.d['p']
+                if (a[1], b[1]) == ('2', '1'):
+                    p = {'slt': 'sgt', 'sgt': 'slt', 'sle': 'sge', 'sge': 'sle'}.get(p, p)
+                # p now reads  c1 <p> c2 ; value of the comparison when the rectangle has no points on this axis (c1 >= c2)
+                val = {'slt': 0, 'sge': 1}.get(p)
+                if val is not None:
+                    tests.setdefault(a[0], {})[x.i] = val
+            if set(tests) != {'x', 'y'}:
+                continue
+            copies = {c.bb.id: c for c in f.calls() if c.callee and c.callee.endswith('_copy') and sum(1 for a in c.a if a[0] == 'a') >= 2}
+            opb = {c.bb.id: c for c in ops}
+            for axis in ('x', 'y'):
+                n += 1; ck.saw(f)
+                known = lambda x, t=tests[axis]: t.get(x.i)
+                hit = common.reach_under(f, known, set(copies) | set(opb))
+                where = '%s (%s): rectangle without points in %s' % (fn, _w(u), axis)
+                if kind == 'intersect' and hit & set(copies):
+                    c = copies[sorted(hit & set(copies))[0]]
+                    ck.violation(R, fn, 'empty rectangle in %s (%s)' % (axis, _w(u)), '%s intersects its source with a rectangle; on the path where %s1 >= %s2 (the rectangle has no points) it reaches %s (result, source) at %s: the intersection with the empty set is empty, not the source' % (fn, axis, axis, c.callee, c.loc()), c.loc())
+                elif kind == 'union' and hit & set(opb):
+                    c = opb[sorted(hit & set(opb))[0]]
+                    ck.violation(R, fn, 'empty rectangle in %s (%s)' % (axis, _w(u)), '%s unites its source with a rectangle; on the path where %s1 >= %s2 (the rectangle has no points) it still reaches %s with that rectangle at %s: the operand is a malformed one-rectangle region, the result is not the source' % (fn, axis, axis, c.callee, c.loc()), c.loc())
+                elif kind == 'union' and not (hit & set(copies)):
+                    ck.violation(R, fn, 'empty rectangle in %s (%s)' % (axis, _w(u)), '%s unites its source with a rectangle; on the path where %s1 >= %s2 it never copies the source into the result: the union with the empty set is the source' % (fn, axis, axis), ops[0].loc())
+                else:
+                    ck.ok(R, where, kind)
+    if n == 0:
+        raise AnalysisBroken('%s: no exported function that tests and combines a rectangle built from its arguments found' % rid)
+
+
+def r5_13_box_difference_keeps_its_width(ck, P, rid='C05-R13'):
+    """T-WID: x2 - x1 of an N-bit box needs N+1 bits.  Wherever the library subtracts two coordinates of the same axis of a box, the
+    difference is used in the wider type it was computed in - it is not truncated back to N bits (int16_t w = box.x2 - box.x1)."""
+    R = ck.rule(rid, 'no difference of two coordinates of the same axis loaded from pixman_box16 / pixman_box32 fields is truncated to the width of the coordinates (16 / 32 bits) before it is used as a size: the width of a valid box can exceed the positive range of its coordinate type (x1 = -20000, x2 = 20000), and the wrapped size turns a valid rectangle into an invalid or empty one', floor=18)
+    n = 0
+    def coord(f, o):
+        y = f.v(o)
+        while y is not None and y.op in ('sext', 'zext'):
+            y = f.v(y.a[0])
+        if y is not None and y.op == 'load':
+            lf = f.last_field(f.path(y.a[0])) or ''
+            m = re.match(r'pixman_box(16|32)\.([xy])([12])$', lf)
+            if m:
+                return int(m.group(1)), m.group(2)
+        return None
+    for f in P.functions():
+        for x in f.insts():
+            if x.op != 'sub':
+                continue
+            a, b = coord(f, x.a[0]), coord(f, x.a[1])
+            if not a or not b or a != b:
+                continue
+            n += 1; ck.saw(f)
+            bits = a[0]
+            bad = None
+            for z in f.users(x):
+                if z.op == 'trunc' and (deadcmp_width(z.ty) or 99) <= bits:
+                    # a wrapped difference stored back into a coordinate field is a translation idiom, not a size
+                    if all(q.op == 'store' and re.match(r'pixman_box', f.last_field(f.path(q.a[1])) or '') for q in f.users(z)):
+                        continue
+                    bad = z
+            where = '%s: %s2 - %s1 at %s' % (f.name, a[1], a[1], x.loc())
+            if bad is not None:
+                ck.violation(R, f.name, 'box difference at %s' % x.loc(), '%s computes the difference of two %d-bit box coordinates at %s and truncates it to %s: a box wider than %d wraps to a negative size, so a valid rectangle is rebuilt as an invalid (empty) one' % (f.name, bits, x.loc(), bad.ty, (1 << (bits - 1)) - 1), bad.loc())
+            else:
+                ck.ok(R, where)
+    if n == 0:
+        raise AnalysisBroken('%s: no difference of box coordinates found' % rid)
+
+
+def deadcmp_width(t):
+    return int(t[1:]) if t and t.startswith('i') and t[1:].isdigit() else None
